@@ -311,6 +311,7 @@ class SmallSetInterp {
       case 11: return ctx().case_mut_ops >= 3 && (HASF(SF_LARGE_STATE) || HASF(SF_STATE_CHANGE_IN_CALL));
       case 5: return ctx().case_mut_ops >= 4 && HASF(SF_MERGE) && !HASF(SF_CROSS_N);
       case 14: return HASF(SF_RELOCATE) && HASF(SF_RELOC_THEN_MUT);
+      case 9: return ctx().case_mut_ops >= 3 && HASF(SF_FAULT);
       default: return ctx().case_mut_ops >= 5 && HASF(SF_CROSS_N);
     }
 #undef HASF
